@@ -401,6 +401,12 @@ func (s *streamGRPC) decompress(dst *bytes.Buffer, b []byte) error {
 
 	r, err := s.comp.Decompress(src)
 	if err != nil {
+		if err == io.EOF {
+			// A payload too short to hold the header of a compressed stream
+			// (e.g. zero bytes flagged as compressed) is a malformed
+			// message, not the clean end of the request stream.
+			err = io.ErrUnexpectedEOF
+		}
 		return err
 	}
 	// The receive limit applies to the decompressed message: inflate at most
